@@ -28,6 +28,11 @@ def run(tier: str) -> int:
     wide = {**base, "lineup": [{"cls": "A", "bs": 4}, {"cls": "B", "bs": 3}], "E": 2}
     for k in range(6 if tier == "quick" else 40):
         scripts.append(calcheck.to_script([["call", 2], ["call", 1]], wide, seed=2 * rng.randrange(1, 10**5), njobs=rng.choice([2, 4])))
+    # every third run without a checkpoint folder: the loss carries value-changing coordinate filters (what the loss does to the
+    # block it is handed must not reach the recorded series)
+    for i, sc in enumerate(scripts):
+        if i % 3 == 0 and not sc["cfg"].get("saving"):
+            sc["cfg"]["filtered"] = True
     traces = calcheck.execute(scripts)
     chk.evaluations = len(traces)
     for t in traces[:3]:
